@@ -20,7 +20,7 @@ RULE = ('(a) binding: seeded random statements with 1..4 positional or named pla
         'one connection mixing text and pre-parsed statements and executemany, every result compared with a fresh execution on a '
         'fresh connection, plus a deep snapshot of the source rows before/after; the same on generated ledgers with metadata, balance and '
         'summary statements in shuffled order;  (d) fixed statements whose compilation order differs from the textual order (placeholders in FROM '
-        'subqueries, nested subqueries, HAVING, ORDER BY) with pairwise different values.  Non-trivial = statement has a placeholder / '
+        'subqueries, nested subqueries, HAVING, ORDER BY) with pairwise different values;  (e) results opened one after the other and read late, calls outside the domain of their function folded / bound / per row.  Non-trivial = statement has a placeholder / '
         'history has a re-used parsed statement; distinct = distinct protocol line or history.')
 ASSUMPTIONS = ['"never mutates the source data" is checked by deep snapshots of the table rows and of the ledger directives (entry and posting metadata included), not proved (the model is pure)']
 
